@@ -59,6 +59,9 @@ func (ex *Exec) assignsActive() bool {
 
 // writeObj: a write to (key, ref) for field/cell/map keys.
 func (ex *Exec) writeObj(st *State, key, ref string) {
+	if !ex.isFreshTerm(ref) && !strings.HasSuffix(key, ".held") {
+		ex.ownWrites++
+	}
 	if !ex.assignsActive() || ex.isFreshTerm(ref) {
 		return
 	}
@@ -113,6 +116,9 @@ func (ex *Exec) ownerOf(ref string) string {
 
 // writeMem: a write to memory cells [lo,hi) (absolute indices) of base, for the given keys.
 func (ex *Exec) writeMem(st *State, keys []string, base, lo, hi string) {
+	if !ex.isFreshTerm(base) {
+		ex.ownWrites++
+	}
 	if !ex.assignsActive() || ex.isFreshTerm(base) || len(keys) == 0 {
 		return
 	}
@@ -146,6 +152,7 @@ func (ex *Exec) writeMem(st *State, keys []string, base, lo, hi string) {
 }
 
 func (ex *Exec) writeGlobal(st *State, key string) {
+	ex.ownWrites++
 	if !ex.assignsActive() {
 		return
 	}
